@@ -6,8 +6,13 @@ From TskVerif Require Import Base.Common C09.Guards.
 Import ListNotations.
 Open Scope Z_scope.
 
+(* the explicit range test is equivalent to what [get] reports; it only keeps the evaluation of
+   the model cheap for identifiers like 2^31 - 1 ([get] converts the index to a unary nat) *)
 Fixpoint read_all (arr : list Z) (ids : list Z) : res unit :=
-  match ids with [] => Ok tt | u :: r => do _ <- get arr u; read_all arr r end.
+  match ids with
+  | [] => Ok tt
+  | u :: r => if (u <? 0) || (u >=? zlen arr) then OOB else do _ <- get arr u; read_all arr r
+  end.
 
 (* ------------------------------------------------------------------------------------ *)
 (* c/tskit/trees.c check_sites (two-locus statistics, ld_matrix(sites=...)): every element
